@@ -19,6 +19,9 @@ COMBOS = [
      "if star_power_events[candidate_index].tick_is_during_event(tick):\n                return candidate_index", ["C05"]),
     ("ben7-5.diff", "track.py", r"(?m)^        m\[t\]\.append\(data\)\n        return True", "        return True", ["C14", "C02"]),
     ("ben7-5.diff", "track.py", r"(?m)^    return False$", "    return True", ["C14"]),
+    # a private generator fused into the loop that consumes it
+    ("ben6-1.diff", "instrument.py", r"(?m)^            left = right$", "            left = right + 1", ["C02", "C18"]),
+    ("ben6-1.diff", "instrument.py", r"datas\[last \+ 1\]\.tick == datas\[last\]\.tick", "datas[last + 1].tick >= datas[last].tick", ["C02"]),
 ]
 
 
